@@ -603,7 +603,7 @@ fn sweep_oracle(c: &SweepCase, ctx: &mut Ctx) -> CaseResult {
 	// `sim` is mutated between the steps, the sweepers only borrow it while they are fed: keep the sweeper as
 	// persisted bytes between steps and re-create it from them (this *is* the round trip under test for the
 	// lagging copy; the leading copy is compared against an instance that never went through bytes within the step)
-	let mut fed: Vec<bitcoin::BlockHash> = sim.chain.blocks.iter().map(|b| b.block_hash()).collect();
+	let mut fed: Vec<bitcoin::BlockHash>;
 	// the persisted image together with the chain view it corresponds to
 	let mut prev_bytes: Option<(Vec<u8>, Vec<bitcoin::BlockHash>)> = None;
 	let mut log_pos = sim.log.len();
